@@ -472,16 +472,10 @@ def is_coplanar(*args: PointTensor | LineTensor, tol: float = EQ_TOL_ABS) -> npt
     result = np.isclose(det(np.stack(np.broadcast_arrays(*[a.array for a in args[:n]]), axis=-2)), 0, atol=tol)
     if not np.any(result) or len(args) == n:
         return result
-    covariant = args[0].tensor_shape[1] > 0
-    e = LeviCivitaTensor(n, covariant=covariant)
-    diagram = TensorDiagram(*[(e, a) if covariant else (a, e) for a in args[: n - 1]])
-    tensor = diagram.calculate()
-    for t in args[n:]:
-        x = t * tensor if covariant else tensor * t
-        result &= np.isclose(x.array, 0, atol=tol)
-        if not np.any(result):
-            break
-    return result
+    # more than n arguments: all of them lie in a common hyperplane (pass through a common point) iff the matrix of all
+    # coordinate vectors has rank less than n
+    arrays = np.stack(np.broadcast_arrays(*[a.array for a in args]), axis=-2)
+    return result & (np.linalg.matrix_rank(arrays, tol=tol) < n)
 
 
 is_collinear = is_coplanar
